@@ -121,7 +121,8 @@ def c04_cfgs(tier):
          cfg('c04', 'D2', n=3, ringf=3, ringx=8, client=4, **base),     # client holds regions
          cfg('c04', 'D2', n=2, n1=3, streams=2, ringf=2, ringx=8, **base),
          cfg('c04', 2, n=2, ringf=1, ringx=1, **base),
-         cfg('c04', 'D3', n=3, ringf=2, ringx=8, **base)]
+         cfg('c04', 'D3', n=3, ringf=2, ringx=8, **base),
+         cfg('c04', 1, n=4, ringf=1, ringx=8, exposure=0)]                  # camera without exposure wait
     if tier == 'quick':
         return q
     t = list(q)
@@ -229,7 +230,8 @@ def c10_cfgs(tier):
     base = dict(exposure=4, prefill=0x42, ringf=2, ringx=8, fringf=2, fringx=8)
     q = [cfg('c10', 1, avg=2, n=n, **base) for n in (2, 3, 4)]
     q += [cfg('c10', 0, avg=2, n=5, type=t, **base) for t in (0, 1, 2, 3, 5, 6, 7)]
-    q += [cfg('c10', 0, avg=3, n=7, w=2, h=2, **base), cfg('c10', 0, avg=2, n=6, **{**base, 'prefill': 0}), cfg('c10', 0, avg=2, n=4, client=1, **base)]
+    q += [cfg('c10', 1, avg=2, n=4, **{**base, 'exposure': 0, 'fringf': 1}),   # camera without exposure wait: the source outruns the filter thread
+          cfg('c10', 0, avg=3, n=7, w=2, h=2, **base), cfg('c10', 0, avg=2, n=6, **{**base, 'prefill': 0}), cfg('c10', 0, avg=2, n=4, client=1, **base)]
     if tier == 'quick':
         return q
     t = list(q)
